@@ -232,6 +232,10 @@ def run(repo: Repo, rep: Report, tier: str) -> None:
     rep.rule("role-source", "as_scu / as_scp of every accepted context come from the role negotiation of that context (C11's every-context and normalisation rules)")
     delegate(repo, rep, tier, "C11", ("every-context", "normalisation"), "role-source", "_get_valid_context filters on as_scu / as_scp: with the proposed roles missing on a context the requestor believes it is SCU there, and a request goes out on a context where the local side does not hold the role")
 
+    from ..lints import no_memoised_io
+    rep.rule("no-stale-meta", "no function whose result depends on a file or on configuration is memoised (the File Meta that selects the context is read from the file on every send)")
+    rep.floor("functions scanned for memoising decorators", no_memoised_io(repo, rep, "no-stale-meta"), 500)
+
 def _check_matching_loop(rep, am, fq, lp, lv, cxs):
     """The body of the matching loop, evaluated for one candidate over the finite space of what it can look at:
     transfer syntax requested or not, the same as the candidate's or not, and for both syntaxes the
